@@ -38,6 +38,20 @@ def isLatticeOfB (t : Table) (L : Lattice) : Bool :=
       decide (L.childrenOf i).Nodup
       && sameMembers (L.childrenOf i) (lowerCovers (L.concepts.map Prod.fst) i)
 
+/-- brute force from the OBJECT side: every concept is `(S'', S')` for some object subset `S`
+    (used for wide tables — few objects, more than 64 attributes — where `2^|M|` is out of reach) -/
+def allConceptsObj (t : Table) : List (List Nat × List Nat) :=
+  ((sublists (List.range t.height)).map fun S => (closure t S, intAll t S)).eraseDups
+
+/-- `isLatticeOfB` with the object-side enumeration of the concepts -/
+def isLatticeOfObjB (t : Table) (L : Lattice) : Bool :=
+  decide L.concepts.Nodup
+  && L.concepts.all (fun c => (allConceptsObj t).contains c)
+  && (allConceptsObj t).all (fun c => L.concepts.contains c)
+  && (List.range L.concepts.length).all fun i =>
+      decide (L.childrenOf i).Nodup
+      && sameMembers (L.childrenOf i) (lowerCovers (L.concepts.map Prod.fst) i)
+
 /-- the exponentiated form of `Δ − log2 n ≤ −log2 (1 − s)`:
     `+inf` on the left forces `1 − s ≤ 0`; otherwise `2^Δ / n ≤ 1 / (1 − s)`, i.e. `(1 − s)·2^Δ ≤ n`
     (for `s = 1` the right-hand side is `+inf` and the relation holds, as `0 ≤ n`). -/
